@@ -713,7 +713,14 @@ func (r *Renderer) renderTexts(w util.BufWriter, source []byte, n ast.Node) {
 		if s, ok := c.(*ast.String); ok {
 			_, _ = r.renderString(w, source, s, true)
 		} else if t, ok := c.(*ast.Text); ok {
-			_, _ = r.renderText(w, source, t, true)
+			if t.IsRaw() {
+				r.Writer.RawWrite(w, t.Segment.Value(source))
+			} else {
+				r.Writer.Write(w, t.Segment.Value(source))
+			}
+			if t.SoftLineBreak() || t.HardLineBreak() {
+				_ = w.WriteByte('\n')
+			}
 		} else {
 			r.renderTexts(w, source, c)
 		}
